@@ -501,6 +501,22 @@ pub fn build(g: &Grammar, thorough: bool) -> Vec<Lock> {
             out.push(Lock { text: t, label: format!("{} behind an A2ML block with multi-line comments", l.label), class: format!("{}+a2ml-block", l.class), fault_tok: None, r5: true, elem_lines: None });
         }
     }
+    // several A2ML blocks in one file: a valid one in the first module, damaged ones (five ways) in the second / third
+    {
+        let good = "/begin A2ML\nblock \"IF_DATA\" struct { uint; };\n/end A2ML\n";
+        for (n, bad) in [("unclosed-brace", "block \"IF_DATA\" struct { uint;"), ("unknown-type", "block \"IF_DATA\" strukt { uint; };"), ("no-if-data", "struct S { uint; };"), ("empty", ""), ("stray-token", "block \"IF_DATA\" struct { uint; }; }")] {
+            for layout in 0..3 {
+                let m = |name: &str, body: &str| format!("/begin MODULE {name} \"\"\n{body}/end MODULE\n");
+                let badblock = format!("/begin A2ML\n{bad}\n/end A2ML\n");
+                let mods = match layout {
+                    0 => format!("{}{}", m("m1", good), m("m2", &badblock)),
+                    1 => format!("{}{}{}", m("m1", good), m("m2", ""), m("m3", &badblock)),
+                    _ => format!("{}{}", m("m1", &badblock), m("m2", good)),
+                };
+                out.push(Lock { text: format!("ASAP2_VERSION 1 71\n/begin PROJECT p \"\"\n{mods}/end PROJECT\n"), label: format!("damaged A2ML block ({n}) in layout {layout} next to a valid one in another module"), class: format!("a2ml-damaged-{n}"), fault_tok: None, r5: false, elem_lines: None });
+            }
+        }
+    }
     // two problems at one token: the element under test with each enum item (current, deprecated, too new, per version) written
     // twice in its parent (the second occurrence is one too many for non-repeatable elements and ends with the enum item)
     for d in corpus::enum_docs(g).into_iter().chain(corpus::carriers(g)) {
